@@ -214,6 +214,35 @@ CLAIMED["C11"] = dict(
     technique="Lean 4 proof (API state-machine model: refusal / single send / exact content for all states and arguments) + op-for-op differential of the model against the real objects + independent judgement of the real objects by vendor-reader oracle",
     note=API_NOTE + CODEC_NOTE + "Zone set-points the wire format cannot express (AT5 below 10.0 / above 35.0 degC) are outside the admissible arguments: accepted by the API, then unencodable or read as keep; counted, not judged.")
 
+CLAIMED["C10"] = dict(
+    text="Theorems in Props/C10At4.lean and Props/C10At5.lean over the API models: after ANY sequence of status / timer / error / version messages in "
+         "the connected state the stored record of every AC and zone object is that of the last message mentioning its number, nothing else about the "
+         "object changes, unknown numbers are no-ops (last_writer_wins_*, stored_*, unknown_*); every getter is total on every defined protocol value "
+         "(tables_total by kernel evaluation over the tables regenerated from the source; *_getters_total); selected mode / fan report AUTO / "
+         "INTELLIGENT_AUTO for the automatic variants while the active getters report the concrete HEAT / COOL and the concrete speed for EVERY protocol "
+         "value (C10_active_fan_concrete_at5 - first a _partial/_refuted pair: the pinned table was wrong for one entry, found by this check on the real "
+         "object and repaired); limits follow the current mode; error details iff the error code is non-zero; quick-timer time iff enabled. Direct "
+         "judgement of the REAL objects against harness/apiref.py (expected public view computed only from the vendor readings of the frames sent so "
+         "far): full cross products of power x mode x fan x flags per AC and power x control x sensor x battery x spill per zone, every set-point and damper "
+         "code, timers, error code/text sequences, random histories with partial frames, repeats, unknown ids and strides, a view after every frame.",
+    design_ref="DESIGN.md section 7, C10 and section 12.4",
+    technique="Lean 4 proof (last-writer-wins and getter totality over the API state-machine models, tables regenerated from source) + op-for-op model/implementation differential + independent reference view from vendor readings on the real objects",
+    note=API_NOTE + "Where the public docs leave a value open (zone target temperature without sensor, limits in modes other than heat / cool, spill and bypass both set, "
+         "battery-low bit without sensor) the reference accepts the documented alternatives; listed in the evidence assumptions.")
+CLAIMED["C12"] = dict(
+    text="Theorems in Props/C12At4.lean and Props/C12At5.lean over the API models: a subscriber of an entity is notified, with the right identifier, exactly "
+         "when a record changes the stored status of that entity (*_notifies_iff_changed / *_notified_iff_changed for AC status, timers, error text, version, "
+         "zones), an identical repeat is silent, zone changes reach the owning air-conditioner's general subscribers but not its AC-state-only subscribers, "
+         "subscribing twice equals subscribing once, unsubscribing stops the calls, and raising subscribers change nothing (a step-for-step simulation: the "
+         "run with every raise flag erased has identical output). Direct judgement of the REAL objects: subscribe / unsubscribe placements anywhere, changed, "
+         "partial and byte-identical frames with a view before and after each: notified iff an exposed attribute in the subscriber's scope differs between the "
+         "views (both directions), right identifier, no extra or missing calls among sibling subscribers, and every script with raising subscribers re-run "
+         "with the same subscribers not raising must give identical views and notifications.",
+    design_ref="DESIGN.md section 7, C12 and section 12.4",
+    technique="Lean 4 proof (notification iff stored change, subscriber-set algebra, raise-erasure simulation over the API models) + op-for-op differential + view-difference oracle on the real objects",
+    note=API_NOTE + "A report that differs only in a field no public attribute shows (timer flag bit, digits of a disabled timer, update sign 1 vs 2) may or may not notify: "
+         "the statement forbids invocation only for an identical report; counted in the evidence.")
+
 NOT_YET = {
 }
 
